@@ -52,6 +52,25 @@ func gcWait(want int, a, b *int64) {
 	}
 }
 
+// gcWait2: as gcWait with different targets for the two counters
+func gcWait2(wantA, wantB int, a, b *int64) {
+	start, lastProgress := time.Now(), time.Now()
+	seen := int64(-1)
+	for time.Since(start) < 30*time.Second {
+		x, y := atomic.LoadInt64(a), atomic.LoadInt64(b)
+		if x >= int64(wantA)-2 && y >= int64(wantB)-2 && (x >= int64(wantA) && y >= int64(wantB) || time.Since(lastProgress) > 300*time.Millisecond) {
+			return
+		}
+		if x+y != seen {
+			seen, lastProgress = x+y, time.Now()
+		} else if time.Since(lastProgress) > 3*time.Second {
+			return
+		}
+		runtime.GC()
+		time.Sleep(5 * time.Millisecond)
+	}
+}
+
 func gcProbeMap(tw *TraceWriter, rnd *rand.Rand) {
 	var keysDone, valsDone int64
 	m := iterable.NewMap[*gcKey, *gcVal]()
@@ -131,7 +150,15 @@ func gcProbeMapCycles(tw *TraceWriter, rnd *rand.Rand) {
 func gcProbeLru(tw *TraceWriter, rnd *rand.Rand) {
 	var keysDone, valsDone int64
 	capacity := 16
+	type gate struct{ entered, release chan struct{} }
+	var curGate atomic.Value // *gate: while set, the creation waits inside the callback and then FAILS
+	curGate.Store((*gate)(nil))
 	c, err := lru.NewCache[*gcKey, *gcVal](capacity, func(k *gcKey) (*gcVal, error) {
+		if g := curGate.Load().(*gate); g != nil {
+			close(g.entered)
+			<-g.release
+			return nil, errors.New("creation failed")
+		}
 		v := &gcVal{[4]int{k.id}}
 		runtime.SetFinalizer(v, func(*gcVal) { atomic.AddInt64(&valsDone, 1) })
 		return v, nil
@@ -151,10 +178,29 @@ func gcProbeLru(tw *TraceWriter, rnd *rand.Rand) {
 			c.Clear()
 		}
 	}
+	// keys that are removed WHILE their creation is in progress, and whose creation then fails: they were never
+	// resident, whatever the cache noted about them must be forgotten
+	m := 800 + rnd.Intn(400)
+	for i := 0; i < m; i++ {
+		k := &gcKey{id: n + i}
+		runtime.SetFinalizer(k, func(*gcKey) { atomic.AddInt64(&keysDone, 1) })
+		g := &gate{make(chan struct{}), make(chan struct{})}
+		curGate.Store(g)
+		done := make(chan struct{})
+		go func() {
+			defer close(done)
+			c.GetOrCreate(k)
+		}()
+		<-g.entered
+		c.Remove(k)
+		close(g.release)
+		<-done
+		curGate.Store((*gate)(nil))
+	}
 	_, _, _, length, _ := lru.VerifListStats(c.ECache)
 	want := n - length
-	gcWait(want, &keysDone, &valsDone)
-	tw.Emit(map[string]any{"op": "GcProbe", "what": "lru", "removed": want, "keys_collected": atomic.LoadInt64(&keysDone),
+	gcWait2(want+m, want, &keysDone, &valsDone)
+	tw.Emit(map[string]any{"op": "GcProbe", "what": "lru", "removed": want, "never_resident": m, "keys_collected": atomic.LoadInt64(&keysDone),
 		"vals_collected": atomic.LoadInt64(&valsDone), "len": length, "live": length})
 	runtime.KeepAlive(c)
 }
